@@ -147,6 +147,7 @@ class _Rewriter(ast.NodeTransformer):
         self.log: List[str] = []
         self._fresh = 0
         self.namedtuples = namedtuples or {}        # class name -> field names in order (typing.NamedTuple classes of the module)
+        self.typeddicts: Set[str] = set()            # TypedDict classes of the module
         self.dict_locals: Set[str] = set()           # names of the current function known to hold a dict (a **kwargs parameter, or
                                                      # every assignment of the name is a dict display / dict(..) call / dict union)
 
@@ -182,7 +183,7 @@ class _Rewriter(ast.NodeTransformer):
         for nm, vs in assigned.items():
             if nm in params:
                 continue
-            if all(isinstance(v, (ast.Dict, ast.DictComp)) or isinstance(v, ast.Call) and dotted(v.func) == 'dict' or
+            if all(isinstance(v, (ast.Dict, ast.DictComp)) or isinstance(v, ast.Call) and (dotted(v.func) == 'dict' or dotted(v.func) in self.typeddicts) or
                    isinstance(v, ast.BinOp) and isinstance(v.op, ast.BitOr) and (isinstance(v.left, ast.Dict) or isinstance(v.right, ast.Dict))
                    for v in vs) and not (a.kwarg is not None and nm == a.kwarg.arg and False):
                 names.add(nm)
@@ -223,6 +224,12 @@ class _Rewriter(ast.NodeTransformer):
                 not any(isinstance(x, ast.Name) and x.id == node.targets[0].id for a in rc.args for x in ast.walk(a)):
             self._hit('RD reduce', node)
             return self._reduce_loop(rc, node.targets[0].id, node)
+        if rc is not None and len(node.targets) == 1 and isinstance(node.targets[0], ast.Attribute) and _ref(node.targets[0]):
+            self._fresh += 1
+            acc = f'_acc{self._fresh}'
+            self._hit('RD reduce', node)
+            node.value = _loc(ast.Name(id=acc, ctx=ast.Load()), node)
+            return self._reduce_loop(rc, acc, node) + [node]
         # NT: `a, b = Pair(x=X, y=Y)` with Pair a typing.NamedTuple of the module: the tuple is unpacked at once, so this is
         # `a, b = (X, Y)` (arguments pure, or already in field order)
         if len(node.targets) == 1 and isinstance(node.targets[0], (ast.Tuple, ast.List)) and isinstance(node.value, ast.Call) and \
@@ -260,6 +267,11 @@ class _Rewriter(ast.NodeTransformer):
     def visit_Call(self, node: ast.Call) -> ast.AST:
         self.generic_visit(node)
         f = node.func
+        # TD: a TypedDict class of the module called with keywords is dict(...)
+        if isinstance(f, ast.Name) and f.id in self.typeddicts and not node.args and all(k.arg is not None for k in node.keywords):
+            self._hit('TD typeddict', node)
+            node.func = _loc(ast.Name(id='dict', ctx=ast.Load()), f)
+            f = node.func
         # C: f(*(a, b)) -> f(a, b) ; f(**{'k': v}) -> f(k=v)
         if any(isinstance(a, ast.Starred) and isinstance(a.value, (ast.Tuple, ast.List)) and
                not any(isinstance(x, ast.Starred) for x in a.value.elts) for a in node.args):
@@ -634,6 +646,8 @@ class _Rewriter(ast.NodeTransformer):
         self.generic_visit(node)
         # DU: {..} | {..}  /  {..} | kwargs  /  d | {..}  (d a local known to be a dict) -> one display with ** parts
         if isinstance(node.op, ast.BitOr) and (isinstance(node.left, ast.Dict) or isinstance(node.right, ast.Dict)):
+            pass
+        if isinstance(node.op, ast.BitOr):
             def known_dict(e: ast.expr) -> bool:
                 return isinstance(e, ast.Dict) or isinstance(e, ast.Name) and e.id in self.dict_locals
             if known_dict(node.left) and known_dict(node.right):
@@ -1218,6 +1232,24 @@ def _propagate_aliases(fn: ast.AST) -> int:
             continue
         v = st.targets[0].id
         val = st.value
+        if isinstance(val, ast.Name) and val.id != v and not stores.get(val.id) and len(stores.get(v, [])) == 1 and v not in params and \
+                not nested_scopes:
+            # `v = X`, X a parameter / captured variable that this function never assigns: v is another name for X
+            reads = [n for n in own if isinstance(n, ast.Name) and n.id == v and isinstance(n.ctx, ast.Load)]
+            sblock = parents.get(id(st))
+            if reads and all(r.lineno >= st.lineno for r in reads) and (sblock is None or all(id(sblock) in block_chain(r) for r in reads)):
+                for r in reads:
+                    r.id = val.id
+                holder = parents.get(id(st))
+                for fld in ('body', 'orelse', 'finalbody'):
+                    lst = getattr(holder, fld, None) if holder is not None else None
+                    if isinstance(lst, list) and st in lst:
+                        i = lst.index(st)
+                        lst[i:i + 1] = [] if len(lst) > 1 else [_loc(ast.Pass(), st)]
+                if holder is None and st in fn.body:      # type: ignore[attr-defined]
+                    fn.body.remove(st)      # type: ignore[attr-defined]
+                n_changed += 1
+            continue
         if not (isinstance(val, ast.Attribute) and _ref(val)):
             continue
         if len(stores.get(v, [])) != 1 or v in params:
@@ -1418,6 +1450,13 @@ def _forward_subst(fn: ast.AST) -> int:
         if d is not None and isinstance(e, ast.Attribute):
             root = d.split('.')[0]
             return root not in stores and root not in ('self', 'cls')
+        # functools.partial(F, a, k=b) over references and local names: building it has no effect and reads nothing that can change
+        if isinstance(e, ast.Call) and (dotted(e.func) or '') in ('ft.partial', 'functools.partial', 'partial') and e.args and \
+                not any(isinstance(a, ast.Starred) for a in e.args) and all(k.arg is not None for k in e.keywords) and \
+                all(isinstance(a, (ast.Name, ast.Constant)) or (dotted(a) is not None and dotted(a).split('.')[0] not in stores and
+                                                                 dotted(a).split('.')[0] not in ('self', 'cls'))
+                    for a in list(e.args) + [k.value for k in e.keywords]):
+            return True
         return False
     pairs: Dict[str, List[Tuple[List[ast.stmt], ast.stmt, ast.stmt]]] = {}
 
@@ -1426,8 +1465,14 @@ def _forward_subst(fn: ast.AST) -> int:
             if isinstance(st, ast.Assign) and len(st.targets) == 1 and isinstance(st.targets[0], ast.Name) and i + 1 < len(stmts):
                 v = st.targets[0].id
                 nxt = stmts[i + 1]
-                if ok_value(st.value) and not any(isinstance(y, (ast.NamedExpr, ast.Lambda, ast.ListComp, ast.SetComp, ast.DictComp, ast.GeneratorExp))
-                                                  for h in headers(nxt) for y in ast.walk(h)):
+                nv_ = getattr(nxt, 'value', None) if isinstance(nxt, (ast.Return, ast.Assign, ast.AnnAssign, ast.Expr)) else None
+                # `v = E` then `return await v` / `x = v` / `await v`: nothing is evaluated between E and the read, whatever E is
+                direct = (isinstance(nv_, ast.Name) and nv_.id == v) or \
+                    (isinstance(nv_, ast.Await) and isinstance(nv_.value, ast.Name) and nv_.value.id == v)
+                direct = direct and not isinstance(st.value, (ast.Yield, ast.YieldFrom, ast.NamedExpr)) and \
+                    not any(isinstance(y, (ast.Yield, ast.YieldFrom, ast.NamedExpr)) for y in ast.walk(st.value))
+                if (ok_value(st.value) or direct) and not any(isinstance(y, (ast.NamedExpr, ast.Lambda, ast.ListComp, ast.SetComp, ast.DictComp, ast.GeneratorExp))
+                                                              for h in headers(nxt) for y in ast.walk(h)):
                     n_reads = sum(1 for h in headers(nxt) for y in ast.walk(h) if isinstance(y, ast.Name) and y.id == v and isinstance(y.ctx, ast.Load))
                     if n_reads == 1:
                         pairs.setdefault(v, []).append((stmts, st, nxt))
@@ -1522,12 +1567,12 @@ def _triggers(tree: ast.Module) -> bool:
             return True
         elif isinstance(x, ast.While) and isinstance(x.test, ast.Compare) and isinstance(x.test.left, ast.NamedExpr):
             return True
-        elif isinstance(x, ast.BinOp) and isinstance(x.op, ast.BitOr) and (isinstance(x.left, ast.Dict) or isinstance(x.right, ast.Dict)):
+        elif isinstance(x, ast.BinOp) and isinstance(x.op, ast.BitOr) and (isinstance(x.left, (ast.Dict, ast.Name)) and isinstance(x.right, (ast.Dict, ast.Name))):
             return True
         elif isinstance(x, ast.AugAssign) and isinstance(x.op, ast.BitOr):
             return True
         elif isinstance(x, ast.Assign) and len(x.targets) == 1 and isinstance(x.targets[0], ast.Name) and \
-                (isinstance(x.value, ast.Attribute) and _ref(x.value) or isinstance(x.value, (ast.IfExp, ast.Constant))):
+                (isinstance(x.value, (ast.Attribute, ast.Name)) and _ref(x.value) or isinstance(x.value, (ast.IfExp, ast.Constant, ast.Call))):
             return True
     return False
 
@@ -1668,6 +1713,8 @@ def canonical(prog: Program, known_globals: Optional[Set[str]] = None) -> Progra
                 k += _forward_subst(fn)
                 k += _sentinel_loops(fn, mod_sentinels)
             rw = _Rewriter(_namedtuples(tree))
+            rw.typeddicts = {st.name for st in tree.body if isinstance(st, ast.ClassDef) and
+                             any(dotted(b) in ('TypedDict', 'typing.TypedDict') for b in st.bases)}
             rw.visit(tree)
             if rw.changed:
                 log.append(f'{m.rel}: ' + ', '.join(rw.log[:12]))
